@@ -298,6 +298,51 @@ func checkC16(c *Ctx) {
 			}
 			rs.Check(upAll, save.Name(), "fallback Create is an update-all upsert", call.Pos(), "OnConflict{UpdateAll: true}", "Save's insert fallback is a plain Create: saving an existing key would fail instead of storing the full value")
 		}
+		// the zero-key arm: Create when ANY primary field is blank - the zero test is applied to the range
+		// variable of a loop over all primary fields (a composite key with one blank part is not "stored")
+		{
+			createAcc := p.Method(p.Named(pkgGorm, "callbacks"), "Create")
+			parents := parentMap(save.Body)
+			nZero := 0
+			for _, call := range callsIn(save) {
+				if fn, _ := typeutil.Callee(info, call).(*types.Func); fn != createAcc {
+					continue
+				}
+				// enclosing if whose condition is the zero flag of a ValueOf call
+				for cur := ast.Node(call); cur != nil; cur = parents[cur] {
+					ifs, ok := parents[cur].(*ast.IfStmt)
+					if !ok || cur != ast.Node(ifs.Body) {
+						continue
+					}
+					as, ok := ifs.Init.(*ast.AssignStmt)
+					if !ok || len(as.Rhs) != 1 {
+						continue
+					}
+					vo, ok := unparen(as.Rhs[0]).(*ast.CallExpr)
+					if !ok {
+						continue
+					}
+					vsel, ok := vo.Fun.(*ast.SelectorExpr)
+					if !ok || vsel.Sel.Name != "ValueOf" {
+						continue
+					}
+					nZero++
+					all := false
+					if pfID, ok := unparen(vsel.X).(*ast.Ident); ok {
+						for up := ast.Node(ifs); up != nil; up = parents[up] {
+							if rg, ok := parents[up].(*ast.RangeStmt); ok {
+								if v, ok := rg.Value.(*ast.Ident); ok && info.Defs[v] == info.Uses[pfID] && strings.HasSuffix(canon(info, rg.X), ".Schema.PrimaryFields") {
+									all = true
+								}
+							}
+						}
+					}
+					rs.Check(all, save.Name(), "zero-key arm tests every primary field", ifs.Pos(), "range over Schema.PrimaryFields", "Save decides 'never stored' from one primary field only: a composite-key value with another key part blank goes to the UPDATE path and overwrites every row sharing the set part instead of being inserted")
+					break
+				}
+			}
+			rs.Check(nZero >= 1, save.Name(), "zero-key arm exists", save.Body.Pos(), "blank key goes to the create pipeline", "Save no longer sends a value with a blank primary key to the create pipeline")
+		}
 		rs.Check(nFallback > 0, save.Name(), "fallback exists", save.Body.Pos(), "update-then-upsert fallback present", "Save has no insert fallback")
 		// slice arm: adds OnConflict{UpdateAll:true} unless user supplied ON CONFLICT
 		okSlice := false
